@@ -1462,7 +1462,16 @@ def _collect_apply(pool, op, o, results):
     excs = o['apply_exc'] = {}
     order = op.get('wait_order') or list(range(len(results)))
     if op.get('join_first'):
-        pool.stop_and_join()
+        # ('keep_alive': the workers stay, and so does the pool — what is then still on its way arrives while it is alive; with
+        # 'keep_alive_then_terminate' the pool is ended right afterwards, as leaving the with-block does: nothing may get lost by that)
+        if op.get('join_first') in ('keep_alive', 'keep_alive_then_terminate'):
+            pool.stop_and_join(keep_alive=True)
+            if op.get('join_first') == 'keep_alive_then_terminate':
+                pool.terminate()
+                o['ready_after_join'] = [(i, bool(r.ready())) for i, r in results]
+        else:
+            pool.stop_and_join()
+            o['ready_after_join'] = [(i, bool(r.ready())) for i, r in results]
         o['joined'] = True
     for j in order:
         i, r = results[j]
